@@ -15,8 +15,8 @@ def goodOf (s : Sys) (d : Name) : Bool := (stOf s d).good
 def NodeG (good : Name → Bool) (nd : Node) : Prop :=
   (nd.bad = false → ∀ d ∈ nd.task.deps,
       d ∈ nd.pend ∨ ((∃ ds, nd.pc = .taskIter ds) ∧ d ∈ nd.snap) ∨ d ∈ nd.waitRun ∨ good d = true) ∧
-  (nd.pc = .self1 → nd.pend = [] ∧ nd.waitRun = []) ∧
-  (nd.status ≠ .none → nd.pc = .done)
+  (nd.pc = .self1 → nd.pend = [] ∧ nd.waitRun = [] ∧ nd.task.loader = none) ∧
+  (nd.status ≠ .none → nd.pc = .done ∧ nd.task.loader = none)
 
 /-- the dynamic dependency table: task_deps of the `Task` object the node of `t` holds -/
 def nodeDeps (s : Sys) (t : Name) : List Name :=
@@ -124,11 +124,12 @@ theorem NodeG.st_none {good : Name → Bool} {nd : Node} (h : NodeG good nd) (hp
     nd.status = .none := by
   cases hs : nd.status with
   | none => rfl
-  | _ => exact absurd (h.2.2 (by rw [hs]; intro e; cases e)) hpc
+  | _ => exact absurd (h.2.2 (by rw [hs]; intro e; cases e)).1 hpc
 
 /-- a new pc for a node that is not inside the `for task_dep` loop -/
 theorem nodeG_pc {good : Name → Bool} {nd : Node} (pc' : PC) (h : NodeG good nd) (h1 : ¬ ∃ ds, nd.pc = .taskIter ds)
-    (h2 : pc' = .self1 → nd.pend = [] ∧ nd.waitRun = []) (h3 : nd.status ≠ .none → pc' = .done) :
+    (h2 : pc' = .self1 → nd.pend = [] ∧ nd.waitRun = [] ∧ nd.task.loader = none)
+    (h3 : nd.status ≠ .none → pc' = .done ∧ nd.task.loader = none) :
     NodeG good { nd with pc := pc' } := by
   refine ⟨fun hb d hd => ?_, h2, h3⟩
   rcases h.1 hb d hd with h3 | h3 | h3 | h3
@@ -191,7 +192,7 @@ theorem core_genStep {inp : Input} {s : Sys} {n : Name} {nd : Node} (h : ObeyCor
       · exact Or.inr (Or.inr (Or.inl h1))
       · exact Or.inr (Or.inr (Or.inr h1))
     · obtain ⟨ds', e⟩ := hpc
-      have := hg.2.2 hs
+      have := (hg.2.2 hs).1
       rw [e] at this; cases this
   unfold genStep
   cases hd : s.nodes d with
@@ -241,7 +242,7 @@ theorem core_addWaitRun {inp : Input} {s : Sys} {n : Name} {nd : Node} (h : Obey
         exact good_of_finished_not_bad (by simpa using hu) hnb
     · exact Or.inr (Or.inr (Or.inl (Or.inr h1)))
     · exact Or.inr (Or.inr (Or.inr h1))
-  · have := hg.2.2 hs
+  · have := (hg.2.2 hs).1
     rw [hpc] at this; cases this
 
 theorem stOf_wakeOne {s : Sys} {w : Name} {nd : Node} (hn : s.nodes w = some nd) (pst : RS) (p : Name) :
@@ -272,7 +273,7 @@ theorem core_wakeOne {inp : Input} {s : Sys} {w : Name} {nd : Node} (h : ObeyCor
         · exact Or.inr (Or.inr (Or.inl ⟨h1, by simpa using hxp⟩))
       · exact Or.inr (Or.inr (Or.inr h1))
     · have := hg.2.1 hpc
-      simp [wokenNode, this.1, this.2]
+      simp [wokenNode, this.1, this.2.1, this.2.2]
   unfold wakeOne
   split
   · exact (core_setNode (x := wokenNode pst p nd) h hn rfl rfl hx).congr rfl rfl
